@@ -132,7 +132,8 @@ def cases(draw):
     funcs = []
     for i in range(nfun):
         body = draw(st.one_of(forests(kinds), deep_forest(kinds)))
-        cont = draw(st.sampled_from(["top", "top", "method", "arrow", "funcexpr", "curried", "callback", "defparam"]))
+        cont = draw(st.sampled_from(["top", "top", "method", "arrow", "funcexpr", "curried", "callback", "defparam", "generator", "genexpr", "asyncfn",
+                                     "objmethod", "classfield"]))
         funcs.append({"name": f"fn_{i}", "container": cont, "body": body})
     # methods are grouped so the class/impl block is contiguous
     funcs.sort(key=lambda f: f["container"] != "method")
